@@ -140,6 +140,16 @@ def obligations(tier, seed):
                 for lo in range(0, size + 1, 4):
                     obs.append({"name": "%s/%s#%d/%d" % (kind, sn, i, lo), "fn": "ob_edit",
                                 "P": {"schema": sn, "doc": i, "kind": kind, "alo": lo, "ahi": lo + 4}, "timeout": T})
+    if tier == "quick":
+        # marked text (one and two marks) into a document that has a mark-free code block
+        for (sn, i) in [("list", 4)]:
+            pp = {"schema": sn, "doc": i}
+            size = common.templates.doc(sn, i).content.size
+            nn = len(ops.payloads(common.load(pp)).nodes)
+            for kind in ("insert", "replace_with"):
+                for lo in range(0, size + 1, 4):
+                    obs.append({"name": "%s/%s#%d-marked/%d" % (kind, sn, i, lo), "fn": "ob_edit",
+                                "P": dict(pp, kind=kind, alo=lo, ahi=lo + 4, xs=[nn - 2, nn - 1]), "timeout": T})
     cross = [("list", 0, 1)] if tier == "quick" else \
         [("list", 0, 1), ("list", 0, 7), ("strict", 0, 0), ("fixed", 0, 0)]
     for (sn, i, j) in cross:
